@@ -467,7 +467,7 @@ def check_counts(prop, tier):
         if i >= nprof:
             pass
         elif (prop == 'C08' and rng.random() < 0.4) or (prop == 'C02' and rng.random() < 0.2) or (prop == 'C04' and rng.random() < 0.12):
-            pr = gen.randprofile(rng, wd=True, eq=True, maxc=6, maxlines=8)
+            pr = gen.randprofile(rng, wd=True, eq=True, maxc=6, maxlines=8, wdmin=rng.choice([0, 0, 2]))
         if prop == 'C18' and i % 3 == 0 and pr['nc'] >= 3:
             # a ballot file may name two candidates alike: every one of them still has his own line in the record
             nm = [drive.cname(c) for c in range(1, pr['nc'] + 1)]
